@@ -145,6 +145,19 @@ def check_case(case):
             err = tol.maxabs(a - b)
             if not err <= rel * max(tol.maxabs(a), abs(bg), cs0 if name == "conc" else fs0):
                 out.bad(f"x-mirror about the window centre with halo {hv}: {name} differs by {err:.3e} (padded {nxe}x{nye}, modes {mh})")
+    if nxe % 2 == 1 and eff[0] == nxe and fpm:
+        # a tower one cell beyond the last node (x = xmax) and its mirror image one cell before the first (x = -dx): both
+        # lie in the periodic padded domain, and the mirror relation does not care where the window ends
+        out.label("flip-x-tower-beyond-window")
+        ce, fe = run(q0, prof, dom, mh, (nx, jm), hv)
+        cm, fm = run(q0[:, ::-1].copy(), (-u, v, Kx, Ky, Kz), dom, mh, (-1, jm), hv)
+        for name, a, b in (("conc", ce, cm[:, :, ::-1]), ("flux", fe, fm[:, :, ::-1])):
+            err = tol.maxabs(a - b)
+            # (with the tower outside it the window may hold next to nothing of the footprint: the unit mass spread over
+            #  the padded domain is the scale below which differences are rounding)
+            if not err <= rel * max(tol.maxabs(a), abs(bg), 1.0 / (nxe * nye)):
+                out.bad(f"x-mirror with the tower at x = xmax (image at x = -dx), halo {hv}: {name} differs by {err:.3e} "
+                        f"(padded {nxe}x{nye}, modes {mh})")
     if nye % 2 == 1 and eff[1] == nye:
         out.label("flip-y-with-halo")
         cm, fm = run(q0[::-1, :].copy(), (u, -v, Kx, Ky, Kz), dom, mh, (im, ny - 1 - jm), hv)
